@@ -160,6 +160,13 @@ DevQuantBatchArray(src, doc) ==
         en.m \in {"all", "of"} /\ en.v.t = "list" /\ HasBatch(en.v.vs, "none")
   \/ DevIdentListBatch(src)
 
+(* key_whitespace: parse_mapping tokenises a key and joins the identifier tokens with ONE space, *)
+(* so a field name with any other whitespace (two spaces, a tab, leading / trailing blanks) is   *)
+(* looked up under a different name than the rule writes                                        *)
+IsWsCp(c) == c = 32 \/ (c >= 9 /\ c <= 13)
+HasWsRun(f) == \E i \in DOMAIN f : IsWsCp(f[i]) /\ (f[i] # 32 \/ i = 1 \/ i = Len(f) \/ IsWsCp(f[i + 1]))
+DevKeyWs(src) == \E i \in DOMAIN AllEntries(src.ids) : HasWsRun(AllEntries(src.ids)[i].f)
+
 (* d: 1-based index of the judged document, 0 when the judgement is not about a document *)
 (* a condition given as text is judged on its parse (cached in the case as `ast` by TauRule);   *)
 (* a text that does not parse has no triggers                                                   *)
@@ -178,4 +185,5 @@ Devs(c, d) ==
        \cup (IF DevMergeBatch(src) THEN {"shake_merge_batch"} ELSE {})
        \cup (IF HasNegCtx(src) /\ indefinite THEN {"opt_reorder"} ELSE {})
        \cup (IF DevDoubleNot(src) /\ indefinite THEN {"shake_double_negation"} ELSE {})
+       \cup (IF DevKeyWs(src) THEN {"key_whitespace"} ELSE {})
 =============================================================================
